@@ -4,7 +4,7 @@
   (`Spec.activePower` = Σ power of the sectors whose status is `active`: live, proven, not faulty)
   and the power-actor model `BA.Power` (claims, totals, consensus-minimum rule).
 -/
-import BA.Lemmas.Sector.FullStep2
+import BA.Lemmas.Sector.Replace
 import BA.Lemmas.Power
 
 namespace BA.Sector
@@ -46,33 +46,36 @@ theorem delta_telescopes (env : Env) (ops : List Op) (p : Partition) :
     rw [ih, activePower_step]
     ext <;> simp <;> omega
 
-/-- **delta_telescopes_recomputed_partial.** From the empty partition, for the operations of
-    `memo_eq_recompute_partial` (add_sectors, record_faults, declare_faults_recovered,
-    recover_faults, activate_unproven, record_missed_post, record_skipped_faults,
-    pop_expired_sectors, terminate_sectors, reschedule_expirations, pop_early_terminations), the
-    sum of all forwarded deltas equals the power
-    RECOMPUTED from the individual sectors: Σ (raw, qa) over the sectors that are live (neither
-    terminated nor expired), proven (not in `unproven`), and neither faulty nor recovering.
-    PARTIAL: for replace_sectors only the memo-level statement `delta_telescopes` is proved. -/
-theorem delta_telescopes_recomputed_partial (env : Env) (ops : List Op) (hw : TableWF env.tbl)
-    (hops : ∀ op ∈ ops, OpWF op ∧ OpWF2 env.tbl op ∧ TierC op) :
-    sumDeltas env Partition.new ops = Spec.activePower env.tbl (run env Partition.new ops).abs := by
-  have h1 := delta_telescopes env ops Partition.new
-  have inv : ∀ (ops : List Op) (p : Partition), FullInv env.tbl p →
-      (∀ op ∈ ops, OpWF op ∧ OpWF2 env.tbl op ∧ TierC op) → FullInv env.tbl (run env p ops) := by
-    intro ops
-    induction ops with
-    | nil => intro p h _; exact h
-    | cons op rest ih =>
-      intro p h hops
-      obtain ⟨a, b, c⟩ := hops op (by simp)
-      simp only [run]
-      apply ih _ _ (fun o ho => hops o (by simp [ho]))
-      unfold step
-      cases hs : stepE env p op with
-      | error e => exact h
-      | ok r => obtain ⟨p', ret⟩ := r; exact fullInv_stepE2 hw h a b c hs
-  have hf := inv ops Partition.new (fullInv_new _) hops
+/-- Σ of the forwarded deltas along `runT` (the sector table follows replace_sectors) -/
+def sumDeltasT (env : Env) : Partition → List Op → PowerPair
+  | _, [] => PowerPair.zero
+  | p, op :: rest =>
+    powerDelta op (step env p op).2 + sumDeltasT (stepT env p op).1 (stepT env p op).2 rest
+
+theorem delta_telescopesT : ∀ (ops : List Op) (env : Env) (p : Partition),
+    (runT env p ops).2.activePower = p.activePower + sumDeltasT env p ops := by
+  intro ops
+  induction ops with
+  | nil => intro env p; simp only [runT, sumDeltasT]; ext <;> simp
+  | cons op rest ih =>
+    intro env p
+    simp only [runT, sumDeltasT]
+    rw [ih]
+    have : (stepT env p op).2 = (step env p op).1 := rfl
+    rw [this, activePower_step]
+    ext <;> simp <;> omega
+
+/-- **delta_telescopes_recomputed.** From the empty partition, along any sequence of calls of all
+    twelve partition methods (`RunOK` as in C04 `memo_eq_recompute`), the sum of all power deltas
+    forwarded to the power actor equals the power RECOMPUTED from the individual sectors of the
+    current table: Σ (raw, qa) over the sectors that are live (neither terminated nor expired),
+    proven (not in `unproven`), and neither faulty nor recovering. -/
+theorem delta_telescopes_recomputed (env : Env) (ops : List Op) (hw : TableWF env.tbl)
+    (hok : RunOK env Partition.new ops) :
+    sumDeltasT env Partition.new ops =
+      Spec.activePower (runT env Partition.new ops).1.tbl (runT env Partition.new ops).2.abs := by
+  have h1 := delta_telescopesT ops env Partition.new
+  obtain ⟨_, hf⟩ := fullInv_runT ops env Partition.new hw (fullInv_new _) hok
   have h2 := (memo_eq_spec hf.sets hf.memo).2.2.2.2
   rw [← h2, h1]
   ext <;> simp [Partition.activePower, Partition.new]
